@@ -15,6 +15,7 @@
 -/
 import ControlModel.Model.Transition
 import ControlModel.Model.DeployAttempts
+import ControlModel.Model.Deadline
 
 namespace Trans
 open EnvM
@@ -205,5 +206,35 @@ def judgeOAll (sc : OScenario) (os : List Obs) : Option String :=
       match o.att with
       | none => some h
       | some att => if lostLast sc.wf att.length then some "deploy_verdict_lost" else some h
+
+/-! ### WHEN an acknowledgement counts
+
+  "Acknowledged" means: within the time the transition allows its tasks. A transition allows every commanded task the same
+  time — 90 s, CONFIGURE 120 s ("we need more time for the tasks to configure") — and a task that answers within it HAS
+  acknowledged, whatever the command queue did with the command on its way to the task. So (1) the scripted outcomes of a
+  request are read against `allowed`: an answer after `d` ms is an acknowledgement iff `d < allowed e` (`TScenario.settle
+  allowed`), and the clauses above are evaluated on that; (2) every commanded target must have been waited for with exactly
+  `allowed e` — otherwise there is a delay for which (1) fails (`C02_wrong_deadline_refutes`), whether or not a task of the
+  run at hand happened to answer in the gap. The time-out given to a target is observable: the per-target command is sent
+  to the executor with its `ResponseTimeout`. -/
+
+/-- The time (ms) a transition allows each of its tasks to answer the command of event `e`. -/
+def allowed : Ev → Nat
+  | .CONFIGURE => 120000
+  | _ => 90000
+
+/-- Every commanded target of every observed request was given exactly the time its transition allows. -/
+def deadlinesOk (os : List TObs) : Bool :=
+  os.all (fun o => o.dl == o.obs.cmd.map (fun _ => allowed o.obs.commandEv))
+
+/-- A verdict on timed observations: the time-outs given must be the times allowed, and then `j` on the rest. -/
+def judgeDl (j : List Obs → Option String) (os : List TObs) : Option String :=
+  if deadlinesOk os then j (os.map (·.obs)) else some "-"
+
+/-- Spec.C02 on an observed run of a scenario with timed outcomes. -/
+def judgeT (sc : TScenario) (os : List TObs) : Option String := judgeDl (judge (sc.settle allowed)) os
+
+/-- …with scripted offers rounds. -/
+def judgeOT (sc : OTScenario) (os : List TObs) : Option String := judgeDl (judgeO (sc.settle allowed)) os
 
 end Trans
